@@ -64,8 +64,8 @@ var jsUniStart = []string{"é", "ß", "Ø", "α", "Ж", "א", "ع", "日", "本"
 // characters with ID_Continue but not ID_Start (Mn Mc Nd Pc Other_ID_Continue), plus ZWNJ and ZWJ
 var jsUniContinue = []string{"\u200c", "\u200d", "\u0301", "\u0903", "\u0663", "\u203f", "\u00b7", "\u1369", "\u19da", "\U0001D7D8", "\U000E0100"}
 
-var jsEscStart = []string{"\\u0061", "\\u00e9", "\\u00E9", "\\u{61}", "\\u{1D4B3}", "\\u{00000061}", "\\u0024", "\\u{5f}", "\\u65e5"}
-var jsEscContinue = []string{"\\u200c", "\\u200D", "\\u0030", "\\u{39}", "\\u0301", "\\u{E0100}", "\\u{200d}"}
+var jsEscStart = []string{"\\u0061", "\\u00e9", "\\u00E9", "\\u{61}", "\\u{1D4B3}", "\\u{00000061}", "\\u0024", "\\u{5f}", "\\u65e5", "\\u{000000061}", "\\u{0000000000000062}"}
+var jsEscContinue = []string{"\\u200c", "\\u200D", "\\u0030", "\\u{39}", "\\u0301", "\\u{E0100}", "\\u{200d}", "\\u{0000000E0100}", "\\u{000000039}"}
 
 func jsIdentStartChar(r *rand.Rand) string {
 	switch r.Intn(10) {
